@@ -1150,6 +1150,7 @@ func checkC16(c *Ctx, p *Prog, r *Result) {
 
 	// (f) devmod writer budget
 	c16DevmodBudget(p, r, f, root)
+	c16KeyFollowsRawKey(p, r)
 }
 
 func condRoot(v ssa.Value) ssa.Value {
